@@ -431,6 +431,26 @@ func VerifC05_PreemptProgress() {
 	}
 }
 
+// VerifC05_ReclaimProgressManyJobs: two interchangeable pending jobs of one queue, two
+// interchangeable preemptible victims of an over-quota sibling queue, scheduling signatures on or off
+// (a job that reclaimed successfully must not make the signature short-cut skip the next one).
+// BOUND: 1 full node; d <- qa, qb, qc; two running preemptible pods in qb, two pending pods in qa, every pod 16 milli-cpu, equal priorities; deserved quotas of qa, qb and all fair shares symbolic below 2^6; signatures explored on/off
+func VerifC05_ReclaimProgressManyJobs() {
+	w := actEvictWorld(evictOpts{bits: 6, nVictims: 2, victimQ: []string{"qb"}, pendingQ: "qa", sameCpu: true, fixedCpu: 16, fixedPreemptibleVictims: true, fixedPending: true,
+		morePending: 1, signatures: vr.AnyBool("useSchedulingSignatures")})
+	reclaim.New().Execute(w.ssn)
+	w.observe()
+	qa, qb := w.queueOf("qa"), w.queueOf("qb")
+	// both jobs keep qa within its deserved quota, and qb is over its quota even after giving one pod up
+	if 32 <= qa.deserved && 16 > qb.deserved {
+		vr.Assert(len(w.cache.evicts) == 2 && w.placed(w.pending) && w.placed(w.others[0]), "C05.every-in-quota-job-reclaims-from-the-over-quota-queue-within-the-cycle")
+	}
+	if 16 <= qa.deserved && 32 > qb.deserved {
+		vr.Assert(len(w.cache.evicts) >= 1 && (w.placed(w.pending) || w.placed(w.others[0])), "C05.in-quota-job-reclaims-from-over-quota-queue-within-the-cycle")
+	}
+	vr.Cover(len(w.cache.evicts) == 2, "C05.cover.two-reclaims-for-one-queue")
+}
+
 // VerifC05_ReclaimProgressAcrossDepartments: the reclaimer and the over-quota queue are in different
 // departments; the victim department is over its quota only when its leaf queues are summed.
 // BOUND: 1 full node; d1 <- qa (pending pod), d2 <- qb, qc with one running preemptible pod each; one shared symbolic cpu request; symbolic deserved quotas and fair shares
